@@ -99,14 +99,16 @@ def finish(rep, t0, configs, checker_cmd, seed=0):
     bad = [i for i in rep.instances if i.status != HOLDS]
     unlisted = [i for i in bad if i.key not in known_keys]
     listed = [i for i in bad if i.key in known_keys]
-    os.makedirs(os.path.join(ROOT, 'replays'), exist_ok=True)
+    scratch_run = bool(os.environ.get('VERIF_NO_EVIDENCE'))
+    rdir = os.path.join(ROOT, '.cache', 'scratch-replays') if scratch_run else os.path.join(ROOT, 'replays')
+    os.makedirs(rdir, exist_ok=True)
     os.makedirs(os.path.join(ROOT, 'evidence'), exist_ok=True)
     for i in listed:
         print('KNOWN-FINDING: property=%s %s [%s]' % (rep.prop, known_keys[i.key]['what'], i.key))
     n = 0
     for i in unlisted:
         n += 1
-        rp = os.path.join(ROOT, 'replays', '%s-%d.json' % (rep.prop, n))
+        rp = os.path.join(rdir, '%s-%d.json' % (rep.prop, n))
         with open(rp, 'w') as fh:
             json.dump({'property': rep.prop, 'rule': i.rule, 'key': i.key, 'status': i.status, 'where': i.where,
                        'msg': i.msg, 'detail': i.detail, 'rule_doc': rep.rules_doc.get(i.rule),
@@ -161,8 +163,9 @@ def finish(rep, t0, configs, checker_cmd, seed=0):
         'violations': len(unlisted),
     }
     ev['coverage'].update(rep.extra)
-    with open(os.path.join(ROOT, 'evidence', '%s.json' % rep.prop), 'w') as fh:
-        json.dump(ev, fh, indent=1, default=str)
+    if not scratch_run:
+        with open(os.path.join(ROOT, 'evidence', '%s.json' % rep.prop), 'w') as fh:
+            json.dump(ev, fh, indent=1, default=str)
     print('%s: %d rule instances, %d hold, %d known finding(s), %d violation(s)  [%s tier, %.1fs]'
           % (rep.prop, len(rep.instances), len(holds), len(listed), len(unlisted), rep.tier, time.time() - t0))
     return 1 if unlisted else 0
